@@ -60,6 +60,10 @@ package proxy
 //@ ghost c42DId uint32
 //@ ghost c42DCnt int
 //@ ghost c42DLoc int
+//@ func (*Syncer).writeLBSrcRangeSvcNATKeys
+//@   property C42
+//@   option safety off
+//@   ghost at call NewNATValueWithFlags: check arg0 == svcID && arg1 == uint32(count) && arg2 == uint32(local)
 //@ func (*Syncer).applyDerived
 //@   property C42
 //@   option safety off
